@@ -135,6 +135,13 @@ def r2_no_carried_state(ctx, chk, rule="C10.2"):
             if s.func.name == "__init__":
                 n_fields += 1
                 continue
+            readers = [x for g_ in scope if g_.cls is not None and g_.cls.name == game_cls
+                       for x in walk_no_nested_defs(g_.node) if isinstance(x, ast.Attribute) and x.attr == s.field and isinstance(x.ctx, ast.Load) and attr_path(x) == "self." + s.field
+                       and not (isinstance(ctx.cfg(g_).stmt_of(x), ast.Expr) and isinstance(ctx.cfg(g_).stmt_of(x).value, ast.Call)
+                                and call_name(ctx.cfg(g_).stmt_of(x).value).startswith("logging."))]
+            if not readers:
+                chk.note("%s stores self.%s while solving; nothing reachable from solve() reads that field, so it cannot carry anything into a later solve" % (s.func.short, s.field))
+                continue
             problems += 1
             chk.violation(rule, s.func.where(s.node), "`%s` stores state on the game object while solving: a later solve() on the same object can see it" % norm_stmt(s.node),
                           expected="%s fields are written only by __init__" % game_cls, found=norm_stmt(s.node),
